@@ -89,3 +89,41 @@ Definition run_lr_row (vs gs : list Z) (mu sigma dm gm : Z) : list (list Z) :=
 
 Definition run_lr_keep (cutoff : Z) (vals : list Z) : list bool :=
   map (fun v => lr_keep (of_bits cutoff) (of_bits v)) vals.
+
+(* ------------------------------------------------------------------------------------------ *)
+(* the other way the transformation changes: update_from_grad (LowRankMassMatrixStrategy::init  *)
+(* at the first point and after every Chain::set_position): the low-rank part is dropped and   *)
+(* the diagonal comes from the gradient alone, fill_invalid = 1, clamp (1e-20, 1e20)            *)
+(* ------------------------------------------------------------------------------------------ *)
+From NutsV Require Import model.Estimator.
+
+Definition f_1em20' : f64 := of_bits 4307583784117748259.
+Definition f_1e20' : f64 := of_bits 4906019910204099648.
+
+Fixpoint lr_grad_means (pos grad stds : list f64) : list f64 :=
+  match pos, grad, stds with
+  | p :: ps, g :: gs, s :: ss => fadd (fmul (fmul s s) g) p :: lr_grad_means ps gs ss
+  | _, _, _ => []
+  end.
+
+Definition lr_update_from_grad (st : lrm) (pos grad : list f64) : lrm :=
+  let r := map (fun g => f_var_inv_std_grad g fone f_1em20' f_1e20') grad in
+  {| lr_stds := map fst r; lr_inv := map snd r; lr_mean := lr_grad_means pos grad (map fst r);
+     lr_inner := None; lr_id := lr_id st + 1 |}.
+
+(* the life of a transformation: re-initialisations and adaptation calls in any order *)
+Inductive lr_event :=
+| EvGrad (pos grad : list f64)
+| EvAdapt (count : N) (upd : option (list f64 * list f64 * list f64 * list (list f64) * list f64)).
+
+Definition lr_step (st : lrm) (e : lr_event) : lrm :=
+  match e with
+  | EvGrad pos grad => lr_update_from_grad st pos grad
+  | EvAdapt count upd => lr_adapt st count upd
+  end.
+
+Definition run_lr_from_grad (id0 : Z) (pos grad : list Z) : list (list Z) :=
+  let st := {| lr_stds := []; lr_inv := []; lr_mean := []; lr_inner := None; lr_id := id0 |} in
+  let st' := lr_update_from_grad st (fl pos) (fl grad) in
+  [ [ (match lr_inner st' with None => 0 | Some _ => 1 end)%Z; lr_id st' ];
+    bits_list (lr_stds st'); bits_list (lr_inv st'); bits_list (lr_mean st') ].
